@@ -26,6 +26,9 @@ static atomics::atomic<int> marker;       // an atomic inside the critical secti
 static __attribute__((noinline)) void do_lock() { L->lock(); }
 static __attribute__((noinline)) bool do_try_lock() { return L->try_lock(); }
 static __attribute__((noinline)) void do_unlock() { L->unlock(); }
+#if LOCK_KIND == 1
+static __attribute__((noinline)) bool do_try_lock_n() { return L->try_lock( 2 ); }
+#endif
 
 static void critical()
 {
@@ -47,8 +50,11 @@ static void worker()
         do_lock();
 #endif
 #if LOCK_KIND == 1
-        if ( nondet_bool()) {          // nested acquisition by the owner
-            do_lock();
+        if ( nondet_bool()) {          // nested acquisition by the owner: lock(), try_lock() or try_lock( count ) (solver's choice)
+            unsigned how = (unsigned) nondet_range( 0, 2 );
+            if ( how == 0 ) do_lock();
+            else if ( how == 1 ) { bool ok = do_try_lock(); VASSERT( ok, "nested try_lock() by the owner succeeds" ); }
+            else { bool ok = do_try_lock_n(); VASSERT( ok, "nested try_lock( count ) by the owner succeeds" ); }
             VASSERT( occ == 0, "nested lock() by the owner: nobody else is inside" );
             do_unlock();               // inner unlock must NOT release the lock
             marker.fetch_add( 1, atomics::memory_order_relaxed );
